@@ -323,7 +323,7 @@ def run_beside(ctx, case):
     names)."""
     from kv.monitors.concurrent import run_clients
     rng = ctx.rng()
-    rig.install_clock(rig.VClock(step=0))
+    clock = rig.install_clock(rig.VClock(step=0))
     users = [(('alice', None), (1, 2)), (('bob', None), (2, 0)), (('carol', None), (1, 0)), (('dave', None), (1, 4))]
     clients = rng.sample(users, 3)
     A = E.AttributeType
@@ -358,9 +358,15 @@ def run_beside(ctx, case):
                     else:
                         ops = [op_query((E.QueryFunction.QUERY_OPERATIONS,))]
                         kind = 'query'
+                    # the optional header fields few clients send (time stamps inside the freshness window in no particular order,
+                    # asynchronous indicator, maximum response size, batch options): none colours another client's requests
+                    from kv.monitors.concurrent import header_variant
+                    hl, kw = header_variant(rng, clock.now)
+                    if kind == 'placeholder-batch' and hl in ('undo', 'asynchronous'):
+                        hl, kw = 'plain', {}
                     try:
-                        frames.append(rig.encode_request(rig.build_request(v, ops), v))
-                        ks.append(kind)
+                        frames.append(rig.encode_request(rig.build_request(v, ops, **kw), v))
+                        ks.append(kind if hl == 'plain' else '%s+%s' % (kind, hl))
                     except Exception:
                         pass
                 scripts.append(((u, g), frames))
